@@ -193,14 +193,48 @@ def rule_cache_key(ctx):
             clo = cnode['args'][2]
             # paths read inside the closure: arguments of read_file / File::open / fs::read*
             reads = []
-            for m in walk(clo):
-                if m['k'] in ('call', 'mcall'):
-                    ps = H.callee_paths(m)
-                    lf = ctx.pv.local_fns(m.get('callee'))
-                    if any(p.endswith(('fs::read_to_string', 'File::open', 'fs::read', 'read_file')) for p in ps) or \
-                            any(short(f.path).endswith('read_file') for f in lf):
+
+            def is_read(m):
+                ps = H.callee_paths(m)
+                lf = ctx.pv.local_fns(m.get('callee'))
+                return any(p.endswith(('fs::read_to_string', 'File::open', 'fs::read', 'read_file')) for p in ps) or \
+                    any(short(f.path).endswith('read_file') for f in lf)
+
+            def reads_in(f_, body, argterm, depth):
+                """terms of the paths read in `body`; argterm maps a parameter hid of f_ to the caller's term"""
+                for m in walk(body):
+                    if m['k'] not in ('call', 'mcall'):
+                        continue
+                    if is_read(m):
                         if m['args']:
-                            reads.append(ctx.pv.eval(cfn, m['args'][0], env, 0))
+                            a0 = m['args'][0]
+                            while a0.get('k') in ('ref', 'wrap'):
+                                a0 = a0['e']
+                            if argterm is not None and a0.get('k') == 'path' and a0['res'].get('hid') in argterm:
+                                reads.append(argterm[a0['res']['hid']])
+                            elif argterm is None:
+                                reads.append(ctx.pv.eval(f_, m['args'][0], env, 0))
+                            else:
+                                reads.append(('unknown', 'path computed inside a helper'))
+                    elif depth > 0:
+                        # a helper that does the reading: follow the path argument into it
+                        for lf in ctx.pv.local_fns(m.get('callee')):
+                            if lf.from_macro:
+                                continue
+                            amap = {}
+                            args_ = ([m['recv']] if m['k'] == 'mcall' else []) + m['args']
+                            for i_, prm in enumerate(lf.params):
+                                if prm.get('k') == 'bind' and i_ < len(args_):
+                                    if argterm is None:
+                                        amap[prm['hid']] = ctx.pv.eval(f_, args_[i_], env, 0)
+                                    else:
+                                        x_ = args_[i_]
+                                        while x_.get('k') in ('ref', 'wrap'):
+                                            x_ = x_['e']
+                                        if x_.get('k') == 'path' and x_['res'].get('hid') in argterm:
+                                            amap[prm['hid']] = argterm[x_['res']['hid']]
+                            reads_in(lf, lf.body, amap, depth - 1)
+            reads_in(cfn, clo, None, 2)
             key_o = {o for o, _ in TM.paths(key_t)}
             key_x = {x for _, x in TM.paths(key_t)}
             if any(x for x in key_x):
